@@ -41,7 +41,12 @@ def main():
                 ctx.load_known()
                 mod.probes(ctx)  # a failing probe of a finding that is not listed as open is a violation
             else:
-                mod.replay(ctx, body["case"])
+                from vpbt.ctx import OutOfDomain
+
+                try:
+                    mod.replay(ctx, body["case"])
+                except OutOfDomain:
+                    pass
         else:
             ctx.load_known()
             if int(shard) == 0 and hasattr(mod, "probes"):
